@@ -190,6 +190,9 @@ func (e *FnEnc) binop(op token.Token, x, y string, tx, ty types.Type, wrap bool)
 		if op == token.QUO {
 			return wr(q, "any"), nz
 		}
+		if uns {
+			return "(mod " + x + " " + y + ")", nz
+		}
 		return "(- " + x + " (* " + y + " " + q + "))", nz
 	case token.EQL:
 		return seq(x, y), ""
